@@ -31,8 +31,21 @@ class DeFactoCookiePolicy(DefaultCookiePolicy):
             'strict_ns_domain', DefaultCookiePolicy.DomainStrictNonDomain)
         DefaultCookiePolicy.__init__(self, *args, **kwargs)
 
+    @classmethod
+    def _is_ip_address(cls, host):
+        '''Return whether the request host is an address, not a name.'''
+        return bool(http.cookiejar.IPV4_RE.search(host)) or ':' in host
+
     def set_ok(self, cookie, request):
         if not DefaultCookiePolicy.set_ok(self, cookie, request):
+            return False
+
+        host = http.cookiejar.request_host(request)
+
+        if cookie.domain_specified and self._is_ip_address(host) and \
+                cookie.domain.lstrip('.') != host:
+            # An address has no domain hierarchy: ".0.1" is not a
+            # parent domain of 127.0.0.1 (RFC 6265 section 5.1.3).
             return False
 
         try:
@@ -58,6 +71,15 @@ class DeFactoCookiePolicy(DefaultCookiePolicy):
             return False
 
         return True
+
+    def return_ok(self, cookie, request):
+        host = http.cookiejar.request_host(request)
+
+        if self._is_ip_address(host) and cookie.domain.lstrip('.') != host:
+            # Also for cookies that were loaded from a file.
+            return False
+
+        return DefaultCookiePolicy.return_ok(self, cookie, request)
 
     def count_cookies(self, domain):
         '''Return the number of cookies for the given domain.'''
